@@ -168,4 +168,19 @@ CONFIG = {
         "quick": {"checks": 400, "shards": 16},
         "thorough": {"checks": 8000, "shards": 16, "timeout": 7200},
     },
+    "C14": {
+        "rule": "one rapid property per base strategy (generated periods/thresholds, plain constructor in 5%) and one over generated decorator/compound expressions; snapshot series of "
+                "length w+1 .. w+60 and a prefix length m. The date channel and every column channel of Report() are drained concurrently through reflection. Oracle: all counts equal; "
+                "dates are snapshot dates in increasing order; in the row of date d the Close column is that snapshot's close, the annotation is that of the normalised action "
+                "Compute recommends on d, the Outcome column is 100 x outcome as of d (bitwise); alignment (i) the report of the first m snapshots equals, bitwise and matched by "
+                "date, the first rows of the full report; alignment (ii) moving-average columns in the newest row react to a change of the newest snapshot. Thorough renders the "
+                "HTML and parses every data.addRow line against the channel contents. Non-trivial: n >= w+2 and >= 1 annotation. Distinct = (strategy expression, n, m, closes).",
+        "technique": "property-based testing (rapid) of report column streams read through reflection: count equality, per-date row oracle, prefix-consistency and newest-bar sensitivity metamorphic relations",
+        "level_text": "Every report column is drained independently and compared with the date axis; rows are checked against the snapshot, the strategy's own normalised actions and Outcome; indicator columns are checked for alignment without assuming which price fields feed them (prefix-consistency catches early plotting, newest-bar sensitivity catches late plotting of moving-average columns). Sampling.",
+        "level_note": "Reads the unexported `values` channel of the two column types by reflection (no source hook). Late-plotting probe covers columns that are plain moving averages (listed in the test); which price fields a report feeds its indicator (e.g. KdjStrategy.Report feeding highs where lows are meant) is outside the statement and not asserted.",
+        "assumptions": ["column channel field is named `values` (harness reports an infrastructure error otherwise)"],
+        "gomaxprocs": [1],
+        "quick": {"checks": 60, "shards": 16},
+        "thorough": {"checks": 1200, "shards": 16, "timeout": 7200},
+    },
 }
